@@ -709,6 +709,9 @@ def judge_replay(r, tmp, verbose=False):
             if got != expected_behaviour(want):
                 fails.append(f"version {value_key(x)}: accepts {got}, expected {expected_behaviour(want)}")
         return fails
+    if op == "retain":
+        bad = mqtt_retain_probe(r["class"], r["retain"])
+        return [bad] if bad else []
     if op == "effect":
         bad = effect_probe(r["class"], r["callback"], r["ext"], tmp)
         return [bad] if bad else []
@@ -780,7 +783,50 @@ def effect_probe(name, with_callback, ext, tmp):
     return None
 
 
+def mqtt_retain_probe(name, retain):
+    """in_prefix / out_prefix / retain honoured by effect: every command published carries the configured
+    retain flag and the configured out prefix, whatever its payload.  Returns a failure text or None."""
+    pubs = []
+    vals = dict(values_a("/nonexistent"), protocol_version="2.2", out_prefix="px/out", in_prefix="px/in",
+                pub_callback=lambda topic, payload, qos, ret: pubs.append((topic, payload, qos, ret)),
+                sub_callback=lambda topic, cb, qos: None)
+    keys = ["pub_callback", "sub_callback", "protocol_version", "out_prefix", "in_prefix"]
+    if retain is not None:
+        vals["retain"] = retain
+        keys.append("retain")
+    gw, err = build(name, keys, vals)
+    if gw is None:
+        return f"{name}({', '.join(keys)}) is not accepted: {err}"
+    want = True if retain is None else retain
+    cmds = ["1;255;3;0;13;\n", "1;1;1;0;2;1\n", "1;1;2;0;0;\n", "7;255;3;0;19;\n", "1;1;1;1;47;text\n"]
+    try:
+        for c in cmds:
+            gw.tasks.transport.send(c)
+    except Exception as exc:  # noqa: BLE001
+        return f"{name}: publishing raised {type(exc).__name__}: {exc}"
+    if len(pubs) != len(cmds):
+        return f"{name}(retain={retain!r}): {len(pubs)} of {len(cmds)} commands were published"
+    for c, (topic, payload, qos, ret) in zip(cmds, pubs):
+        if ret is not want and ret != want:
+            return (f"{name}(retain={retain!r}) published {c.strip()!r} (payload {payload!r}) with retain={ret!r}, "
+                    f"not the configured {want!r}")
+        if not topic.startswith("px/out/"):
+            return f"{name}(out_prefix='px/out') published {c.strip()!r} to {topic!r}"
+    return None
+
+
 def run_effects(res, tmp):
+    for name in CLASSES:
+        if "MQTT" in name:
+            for retain in (None, True, False):
+                res.count("effect-probes")
+                res.evaluations += 1
+                res.distinct.add(digest(["retain", name, retain]))
+                bad = mqtt_retain_probe(name, retain)
+                if bad:
+                    res.oracle_failures.append({
+                        "key": {"kind": "option-without-effect", "class": name, "option": "retain"},
+                        "what": bad, "replay": {"op": "retain", "class": name, "retain": retain}})
     for name in CLASSES:
         for with_callback in (True, False):
             for ext in ("json", "pickle"):
